@@ -214,8 +214,13 @@ impl Layout {
     /// Render a trace to source text and compute the model's prediction.
     pub fn render(&self, trace: &[Act]) -> (String, Expected) {
         let mut src = String::new();
+        // (for every third trace the device is named at the very end instead: a program is
+        // assembled for the device it selects, wherever the line stands)
+        let device_last = trace.len() % 3 == 2;
         if let Some(d) = &self.devname {
-            src.push_str(&format!(".device {}\n", d));
+            if !device_last {
+                src.push_str(&format!(".device {}\n", d));
+            }
         }
         src.push_str(&format!(".equ k_base = {}\n", K_BASE));
         // feature flags whose names differ from the labels below (and from every reference to them)
@@ -356,6 +361,11 @@ impl Layout {
             }
         }
         put(&mut code, at as usize * 2, &tail);
+        if let Some(d) = &self.devname {
+            if device_last {
+                src.push_str(&format!(".device {}\n", d));
+            }
+        }
         (src, Expected { fail, code, eeprom, ram_filling: data_end - self.ram_start, ram_filling_counter: s.pc[1] - self.ram_start, labels })
     }
 }
